@@ -526,6 +526,31 @@ func call(i *interpreter, caller *frame, callpos token.Pos, fn value, args []val
 	panic(fmt.Sprintf("cannot call %T", fn))
 }
 
+// underTest reports whether the frame executes code of the repository under test.
+func (i *interpreter) underTest(fr *frame) bool {
+	if fr == nil || fr.fn == nil {
+		return true
+	}
+	f := fr.fn
+	for f.Parent() != nil {
+		f = f.Parent()
+	}
+	if f.Pkg == nil {
+		if o := f.Origin(); o != nil && o.Pkg != nil {
+			f = o
+		} else {
+			return true
+		}
+	}
+	path := f.Pkg.Pkg.Path()
+	for _, p := range i.cfg.VolatilePrefix {
+		if strings.HasPrefix(path, p) {
+			return true
+		}
+	}
+	return false
+}
+
 func loc(fset *token.FileSet, pos token.Pos) string {
 	if pos == token.NoPos {
 		return ""
@@ -552,6 +577,11 @@ func callSSA(i *interpreter, caller *frame, callpos token.Pos, fn *ssa.Function,
 		if st, ok := i.p.stubs[fn.String()]; ok {
 			return call(i, caller, callpos, st, args)
 		}
+	}
+	if fn.Parent() == nil && fn.Pkg != nil && fn.Pkg.Pkg.Path() == "fmt" && fmtEntry[fn.Name()] && fn.Signature.Recv() == nil && !i.underTest(caller) {
+		// message text built by dependencies (go-openapi/errors, strconv, …);
+		// formatting done by the code under test itself is interpreted faithfully
+		args = sanitizeFmtArgs(args)
 	}
 	if fn.Parent() == nil {
 		if ext := findExternal(fn); ext != nil {
@@ -604,6 +634,12 @@ func runFrame(fr *frame) {
 		}
 		r := recover()
 		if a, ok := r.(abortPath); ok {
+			if (a.kind == "bound" || a.kind == "unsupported") && !strings.Contains(a.msg, " @ ") {
+				a.msg += " @ " + fr.fn.String() + loc(fr.fn.Prog.Fset, curPos(fr))
+				for c, n := fr.caller, 0; c != nil && n < 8; c, n = c.caller, n+1 {
+					a.msg += " < " + c.fn.String() + loc(fr.fn.Prog.Fset, curPos(c))
+				}
+			}
 			panic(a) // engine-level abort: not visible to the target
 		}
 		if s, ok := r.(string); ok && !strings.HasPrefix(s, "runtime error") {
